@@ -89,6 +89,15 @@ def run(tier):
                                     name="six separate missing extents, limit %d, a new boundary per response, frag %d, comp %d" % (limit, frag, comp))
                 sc.must = True
                 sc.write_files(); scs.append(sc)
+        # the server's file has every chunk right and a wrong whole-data checksum: all chunks arrive and verify, and the
+        # final validation has to refuse the result (Delta!DFinish with bValid = FALSE)
+        hB2 = ref.parse_header(B2); dd = bytearray(hB2.data_digest); dd[0] ^= 1
+        B3 = ref.rebuild_from_parse(hB2, B2, data_digest=bytes(dd))
+        for T3, tn in ((b"", "empty"),):
+            sc = delta.Scenario("p%d" % len(scs), wd, B3, T3, sources=[A2], limit=-1, frag=0,
+                                name="server file with a wrong whole-data checksum, target %s, comp %d" % (tn, comp))
+            sc.must = True; sc.bvalid = False
+            sc.write_files(); scs.append(sc)
     nproc = 12
     parts = ["".join(s.script() for s in scs[i::nproc]) for i in range(nproc)]
     evs = [e for part in common.run_driver_parallel(parts, "plain", timeout=2400) for e in part]
@@ -103,11 +112,11 @@ def run(tier):
         ck.case(sc.name)
     # ---- the shipped downloader against the loopback HTTP server
     bd = os.path.join(common.BUILD, "plain")
-    nz = 12 if tier == "quick" else 80
+    nz = 14 if tier == "quick" else 80
     zscripts = {}
     for i in range(nz):
         A, B, kind = make_pair(rnd, big=(i % 3 == 2))
-        special = {6: "ladder", 7: "norange", 8: "norange-old", 9: "norange-fail", 10: "ladder1", 11: "norange-equalB"}.get(i, "")
+        special = {6: "ladder", 7: "norange", 8: "norange-old", 9: "norange-fail", 10: "ladder1", 11: "norange-equalB", 12: "baddata", 13: "norange-baddata"}.get(i, "")
         if special:
             # deterministic: twelve data chunks of which every second one is in A (six separate missing extents)
             cB = [b""] + [corpus.text(rnd, 400 + 70 * k) for k in range(12)]
@@ -118,6 +127,12 @@ def run(tier):
         if hB.hash_type != 1:
             B = ref.rebuild_from_parse(hB, B)            # (keep as is; zckdl handles SHA-1/SHA-256 overall types)
             hB = ref.parse_header(B)
+        bvalid = True
+        if special.endswith("baddata"):
+            # the file the server holds has every chunk right and a wrong whole-data checksum (header re-sealed): every
+            # chunk can be filled in and verified, and only the final validation can refuse the result
+            dd = bytearray(hB.data_digest); dd[3] ^= 0x10
+            B = ref.rebuild_from_parse(hB, B, data_digest=bytes(dd)); hB = ref.parse_header(B); bvalid = False
         tk, T = initial_target(rnd, A, B)
         if i < 6:      # make sure every kind of pre-existing target is tried by the shipped downloader
             tk = ["overlong", "equalB", "old", "empty", "partialB", "garbage"][i]
@@ -140,18 +155,23 @@ def run(tier):
             if os.path.exists(os.path.join(cwd, "B.zck")): os.remove(os.path.join(cwd, "B.zck"))
         if norange:
             mr = 0
-            tk, T = {"norange": ("empty", b""), "norange-old": ("old", A), "norange-fail": ("empty", b""), "norange-equalB": ("equalB", B)}[special]
+            tk, T = {"norange": ("empty", b""), "norange-old": ("old", A), "norange-fail": ("empty", b""), "norange-equalB": ("equalB", B), "norange-baddata": ("empty", b"")}[special]
             if tk == "empty":
                 if os.path.exists(os.path.join(cwd, "B.zck")): os.remove(os.path.join(cwd, "B.zck"))
             else:
                 open(os.path.join(cwd, "B.zck"), "wb").write(T)
             if special == "norange-fail":
                 extra = ("--fail-no-ranges",)
+        if special == "baddata":
+            tk, T = "empty", b""
+            if os.path.exists(os.path.join(cwd, "B.zck")): os.remove(os.path.join(cwd, "B.zck"))
         srv = server.start(root, max_ranges=mr, piece=piece, no_ranges=norange)
         url = "http://127.0.0.1:%d/B.zck" % srv.server_address[1]
         st = zckdltier.run_zckdl(bd, cwd, url, src="A.zck" if A is not None else None, extra=extra)
         after = open(os.path.join(cwd, "B.zck"), "rb").read() if os.path.exists(os.path.join(cwd, "B.zck")) else b""
-        ev = zckdltier.tool_event(B, hB, A, T if tk != "empty" else b"", after, server.requested_ranges(srv.log, "B.zck"), st, full=norange, must=(special != "norange-fail"))
+        ev = zckdltier.tool_event(B, hB, A, T if tk != "empty" else b"", after, server.requested_ranges(srv.log, "B.zck"), st, full=norange, must=(special != "norange-fail"), bvalid=bvalid)
+        if not bvalid:
+            ck.extra.setdefault("zckdl_invalid_server_file_status", []).append([special, st])
         if special.startswith("ladder"):
             over = [e for e in srv.log if e["range"] and len(e["range"].split(",")) > mr]
             ck.extra.setdefault("zckdl_over_limit_requests_refused", []).append(len(over))
